@@ -217,6 +217,16 @@ type Unsupported4 struct {
 	}
 }
 
+// Odd: members that take rarely used decoders: a pointer to a struct behind
+// the ",string" option (go-json unwraps the string and decodes its content),
+// and a func member (only null is acceptable).
+type Odd struct {
+	P *Small   `json:"p,string"`
+	F func()   `json:"f"`
+	N int      `json:"n"`
+	Q *float64 `json:"q,string"`
+}
+
 // non-empty interface member
 type Shape interface{ Area() int }
 type Sq struct{ S int }
@@ -722,6 +732,7 @@ func init() {
 	reg("Ints", Ints{})
 	reg("IntKeys", IntKeys{})
 	reg("WithShape", WithShape{})
+	reg("Odd", Odd{}, "nostd")
 	reg("Unsupported", Unsupported{}, "bad")
 	reg("Unsupported2", Unsupported2{}, "bad")
 	reg("Unsupported3", Unsupported3{}, "bad")
